@@ -1,4 +1,50 @@
+import os
+import shutil
+
+from .. import common as C
+
+
+def lean_str(s):
+    return '"' + s.replace("\\", "\\\\").replace('"', '\\"') + '"'
+
+
+def gen_qshape():
+    """Statements of every QStream / tcpConn method (go/ast, harness component `qshape`) ->
+    lean/Hy/Gen/QShape.lean.  The caller holds the "lean" lock."""
+    b, o = C.build_harness("core")
+    if b is None:
+        raise RuntimeError("harness build failed: " + o[-500:])
+    d = os.path.join(C.BUILD, "runs", "qshape-%d" % os.getpid())
+    shutil.rmtree(d, ignore_errors=True)
+    os.makedirs(d)
+    ops = os.path.join(d, "in.ops")
+    with open(ops, "w") as f:
+        f.write("shape %s %s\n" % (os.path.join(C.REPO, "core", "internal", "utils", "qstream.go"),
+                                   os.path.join(C.REPO, "core", "client", "client.go")))
+    rc, out = C.run([b, "qshape", "-out", os.path.join(d, "out"), "-ops", ops], timeout=120)
+    if rc != 0:
+        raise RuntimeError("qshape failed: " + out[-500:])
+    line = open(os.path.join(d, "out", "impl.txt")).read().rstrip("\n")
+    shutil.rmtree(d, ignore_errors=True)
+    lines = ["/- REGENERATED from /repo/core/internal/utils/qstream.go and /repo/core/client/client.go on every run",
+             "   (go/ast; tools/hv/props/C06.py). Do not edit.  One list per method: its top-level statements. -/",
+             "namespace Hy.Gen.QShape"]
+    names = []
+    for part in line.split("\x1f"):
+        if "\t" not in part:
+            raise RuntimeError("qshape: " + line[:300])
+        k, v = part.split("\t", 1)
+        name = k.replace(".", "_")
+        names.append(name)
+        stmts = [x for x in v.split("\x1e") if x != ""]
+        lines.append("def %s : List String := [%s]" % (name, ", ".join(lean_str(x) for x in stmts)))
+    lines.append("def methods : List String := [%s]" % ", ".join(lean_str(n) for n in names))
+    lines.append("end Hy.Gen.QShape")
+    C.write_gen_file("QShape", "\n".join(lines) + "\n")
+
+
 CFG = {
+    "gen_hooks": [gen_qshape],
     "props_module": "Hy.Props.C06",
     "gen_modules": ["core"],
     "level": "proof",
@@ -7,7 +53,7 @@ CFG = {
         # tie (1): the real copyBufferLog / copyTwoWayEx under scripted readers, writers, loggers and schedules
         {"mod": "core", "component": "relay", "driver": "relay", "n": {"quick": 5000, "thorough": 100000}},
         # tie (2): the real client + server over loopback UDP with a scripted outbound connection
-        {"mod": "core", "component": "relaylb", "driver": "relay", "n": {"quick": 70, "thorough": 1000}, "timeout": 7200},
+        {"mod": "core", "component": "relaylb", "driver": "relay", "n": {"quick": 80, "thorough": 1000}, "timeout": 7200},
     ],
     "rule": "relay: one op = one run of the REAL copyBufferLog (70%) or copyTwoWayEx (30%, both goroutines gated so that "
             "their interleaving and the teardown points are the PRNG's schedule) against a scripted source (0..40 reads; sizes 0, 1, "
@@ -15,15 +61,16 @@ CFG = {
             "random chunk) and a scripted sink (error / short write at a random chunk); compared exactly with the model on result class, "
             "digest of the forwarded bytes, logged/offered/in-flight counts and the full sequence of Read/log/Write calls. "
             "relaylb: one op = one proxied TCP connection through the real client and server over loopback (fresh pair per op), classes "
-            "tfin/cfin/cearly/tearly/trerr/twerr/veto(T|R × now|late)/dial(0,1,2047,2048,2049,5000,random), fast open on/off, logger "
+            "tfin/cfin/cwfin(client closes right after its last write)/twfin(target ends right after its last bytes)/cearly/tearly/trerr/twerr/veto(T|R × now|late)/dial(0,1,2047,2048,2049,5000,random), fast open on/off, logger "
             "present/absent, RequestHook absent / declining / intercepting-without-change, and (fast open) 0-2 Reads that time out while the outbound "
             "dial is held back; dial ops compared exactly with the model, relay ops by evaluating the model's relations on the observed trace. "
             "distinct = distinct op line; non-trivial = bytes were forwarded or logged, a chunk was refused, or a dial error was delivered",
     "trusted_base": [
         "io.Reader/io.Writer contracts: Read returns at most len(buf) bytes; Write returns a non-nil error whenever it accepts fewer bytes "
         "than given (copyBufferLog ignores the count)",
-        "QUIC streams are reliable and ordered, Close = FIN after the written data, CloseWithError kills all streams (quic-go); "
-        "QStream.Close = CancelRead + Close",
+        "the contract of quic-go's *quic.Stream as stated in Hy.Model.QStream (Write/Close/CancelWrite/CancelRead/Read per half, read from "
+        "send_stream.go / receive_stream.go), reliable ordered delivery up to FIN, CloseWithError kills all streams; QStream and tcpConn's "
+        "write/close/deadline methods themselves are modelled and tied to the source by go/ast facts (Hy.Gen.QShape) decided in Lean",
         "atomicity: one call of src.Read / the logger / dst.Write / a channel operation is one step; the refusing LogTraffic call and the "
         "connection close it triggers (D11 repair) are one step of the refusing goroutine",
         "copyTwoWay (no traffic logger, io.Copy) is modelled as the same loop with a logger that always approves; only prefix integrity and "
@@ -48,7 +95,7 @@ MANIFEST = {
             "chunk and closes the connection in both directions; a clean direction that returns has forwarded everything (fairness hypothesis); "
             "a failed dial reaches the client as DialError with the message (cut to 2048 bytes) for every padding and chunking, via C04's round "
             "trip. Tied to the source by regenerated constants, a 5000-case exact differential of the real copy functions under scripted "
-            "environments and imposed schedules, and 70 real client/server loopback relays per run (thorough: 100000 + 1000, -race).",
+            "environments and imposed schedules, and 80 real client/server loopback relays per run (thorough: 100000 + 1000, -race).",
     "note": "Trusted: Lean kernel (+leanchecker); the Go harness and hydrv; io.Reader/io.Writer contracts; quic-go stream semantics; step "
             "atomicity. Completeness is partial (fairness is a hypothesis). Residual risk: implementation differs from the model on an "
             "input/schedule the generators did not draw.",
